@@ -528,7 +528,25 @@ class StmtMixin:
         return [(st, None)]
 
     def s_Delete(self, st, n):
-        raise OutOfSubset("del statement", n)
+        if len(n.targets) != 1 or not isinstance(n.targets[0], ast.Subscript):
+            raise OutOfSubset("del statement", n)
+        tgt = n.targets[0]
+        out = []
+        for s, vals in self.ev_seq(st, [tgt.value, tgt.slice]):
+            if is_exc(vals):
+                out.append((s, ("raise", vals)))
+                continue
+            base, idx = vals
+            if isinstance(base, SDict) and base.term is None and isinstance(idx, PyC) and isinstance(idx.obj, str):
+                cnd = base.entries.get(idx.obj, (FALSE, None))[0]
+                res = self.raising(s, None, [(KeyError, Not(cnd))], n)
+                out.extend((s_, ("raise", r_)) for s_, r_ in res[:-1])
+                nd = base.copy()
+                nd.entries.pop(idx.obj, None)
+                out.extend(self.store_back(res[-1][0], tgt.value, nd, n))
+                continue
+            raise OutOfSubset("del on a symbolic container", n)
+        return out
 
     def s_Global(self, st, n):
         raise OutOfSubset("global statement", n)
